@@ -537,6 +537,16 @@ def sweep_cases():
                    "A return%sValueOrDefault %s" % (k, d), "S return%sValueOrDefault %s" % (k, d), "A returnValue", "S returnValue",
                    "A %sReturnValue" % lstem]
             out.append(("sweep", ops))
+    # a call made while disabled right after a value-returning call of the same scope (still the scope's last call): no
+    # return value through either interface, every ...OrDefault of both tables hands back the caller's default
+    for i, (k, lstem, ch, values) in enumerate(KINDS):
+        scope = ["M0", "M 7331", "M 613a3a62"][i % 3]
+        ops = [scope, "S expectOneCall 66", "E andReturn%sValue %s" % (k, tok(k, values[-1])), "S actualCall 66",
+               "A %sReturnValue" % lstem, "S disable", "S actualCall 67", "A hasReturnValue", "S hasReturnValue"]
+        for k2, _, _, values2 in KINDS:
+            ops.append("%s return%sValueOrDefault %s" % ("A" if (i + len(ops)) % 2 else "S", k2, tok(k2, values2[-1])))
+        ops += ["A %sReturnValue" % lstem, "M0", "S enable", "S checkExpectations", "S clear"]
+        out.append(("sweep", ops))
     out.append(("sweep", [
         "M0", "S installComparator 4f626a", "S installCopier 4f626a", "S crashOnFailure 0", "S strictOrder",
         "S expectNCalls 2 66", "E withDoubleParametersAndTolerance 64 %s %s" % (dbits(1.0), dbits(0.5)),
@@ -780,6 +790,45 @@ def crash_case(rng):
     return ops
 
 
+def disabled_case(rng):
+    """an actual call that gets the ignored-call object (mocking disabled, or ignoreOtherCalls and an unexpected name) made
+    in a scope whose PREVIOUS actual call fulfilled an expectation with a return value and is still the scope's last call
+    (no checkExpectations / clear in between).  MockSupport::actualCall finishes and deletes that previous call before it
+    tests enabled_, so afterwards the scope has no last call: hasReturnValue and every return<Type>ValueOrDefault, at
+    actual-call level and at mock level, must say "no return value" / hand back the caller's default through both
+    interfaces.  No scope switch between the ignored call and the questions (that is the other, known, finding)."""
+    sc = rng.choice(SCOPES)
+    k, lstem, ch, values = rng.choice(KINDS)
+    ops = [m_(sc), "S expectOneCall 66", "E andReturn%sValue %s" % (k, tok(k, rng.choice(values))), "S actualCall 66"]
+    r = rng.random()
+    if r < 0.35:
+        ops.append(rng.choice(["A %sReturnValue" % lstem, "S %sReturnValue" % lstem, "A hasReturnValue", "S hasReturnValue"]))
+    how = rng.choice(["disable", "disable", "disable", "disable-global", "ignore"])
+    if how == "disable":
+        ops.append("S disable")
+    elif how == "disable-global":
+        ops += ["M0", "S disable", m_(sc)]           # disable() reaches every scope that exists
+    else:
+        ops.append("S ignoreOtherCalls")
+    ops.append("S actualCall 67")
+    if rng.random() < 0.3:
+        ops.append("A withIntParameters 70 %d" % rng.choice([0, 1, -1]))
+    for _ in range(rng.choice([2, 3, 4, 6])):
+        t = rng.choice("AAS")
+        x = rng.random()
+        if x < 0.3:
+            ops.append("%s hasReturnValue" % t)
+        elif x < 0.9:
+            k2 = k if rng.random() < 0.4 else rng.choice(KINDS)[0]
+            ops.append("%s return%sValueOrDefault %s" % (t, k2, tok(k2, pick(rng, k2))))
+        else:
+            ops.append("A %sReturnValue" % KIND[rng.choice(KINDS)[0]][1])      # the ignored object's own zero, both sides
+    if rng.random() < 0.5:
+        ops += ["M0", "S enable"] if how != "ignore" else []
+    ops += ["M0", "S checkExpectations", "S clear"]
+    return ops
+
+
 def malformed_case(rng):
     """operations in an order the scenario language does not promise anything about: chain members before any
     expect/actual call, unknown members, bad arguments (printed as `> skip` by both runs), table members only"""
@@ -809,6 +858,8 @@ def generate(rng, tier):
         out.append(("crash", mark(crash_case(rng))))
     for i in range(n // 50):
         out.append(("undisciplined", undisciplined_case(rng)))
+    for i in range(n // 10):
+        out.append(("disabled", disabled_case(rng)))
     return out
 
 
@@ -886,6 +937,20 @@ def observe(r, rep):
             rep.count("crash.recorded_by_Cpp_run")
         elif len(w) >= 4 and w[:2] == [">", "c"] and w[3] == "M" and len(w) == 5 and w[4] == "613a3a62":
             rep.count("scope.name_with_colons")
+    # a disabled / ignored call right after a value-returning call of the same scope, then asked for its return value
+    stage = 0       # 1: returning expectation, 2: its call made, 3: disabled, 4: call made while disabled
+    for l in r.ops:
+        w = l.split()
+        if w[:1] == ["E"] and len(w) >= 2 and w[1].startswith("andReturn"):
+            stage = 1
+        elif w[:2] == ["S", "actualCall"]:
+            stage = 2 if stage == 1 else (4 if stage == 3 else 0)
+        elif w[:2] in (["S", "disable"], ["S", "ignoreOtherCalls"]):
+            stage = 3 if stage in (2, 3) else 0
+        elif w[:2] in (["S", "checkExpectations"], ["S", "clear"], ["S", "enable"], ["T"]):
+            stage = 0
+        elif stage == 4 and len(w) >= 2 and w[0] in "AS" and (w[1] == "hasReturnValue" or w[1] in DEFAULT_FIELDS):
+            rep.count("disabled_after_returning.%s.%s" % (w[0], "hasReturnValue" if w[1] == "hasReturnValue" else "orDefault"))
     inst = {"installComparator": 0, "installCopier": 0}
     for l in r.ops:
         w = l.split()
@@ -921,7 +986,7 @@ TRUSTED = [
     "Lean 4 kernel; axioms of every theorem audited (propext, Classical.choice, Quot.sound at most)",
     "translate/extract_cmock.py (regex extractor of struct member order, table initialisers, forwarder bodies, the "
     "getMockValueCFromNamedValue branch chain, C++ getter shapes, node constructors and freeing loops, reporter / terminator "
-    "bodies, the reporter argument of mock_c / mock_scope_c); cross-checked on every run: the model dispatches through the "
+    "bodies, the reporter argument of mock_c / mock_scope_c, the statement order of MockSupport::actualCall); cross-checked on every run: the model dispatches through the "
     "regenerated tables and its predicted C++ calls / C results / crash-hook calls are diffed against the real code",
     "the abstract C++ mock of the model is the real C++ implementation in the harness: equality of the two runs of the real "
     "code is observed per generated scenario (h_c19), not proved",
@@ -947,7 +1012,8 @@ RULE = ("scenarios = sequences of C-level operations (scope selection incl. a sc
         "of all 15 kinds, output parameters, return values of all 12 types, actual calls matching or violating them in "
         "name/value/type/arity/order, getters of the same / a compatible / another type with and without default, data store, "
         "strict order, ignore, disable/enable, check, clear, crashOnFailure with every truth value, comparator alone / copier "
-        "alone / both on the global mock or a named scope, removeAll) + a deterministic sweep of every table member x every "
+        "alone / both on the global mock or a named scope, removeAll; a call made while disabled / ignored right after a "
+        "value-returning call of the same scope, asked hasReturnValue and ...OrDefault through both tables) + a deterministic sweep of every table member x every "
         "boundary value, buffers at the exact harness lengths, crashOnFailure x failure site x teardown; each is run through "
         "the C interface and through the C++ interface in two fresh tests; non-trivial = at least one actual-call chain member "
         "executed; distinct = distinct op sequences")
